@@ -19,6 +19,19 @@ fn junk(rng: &mut Rng) -> String {
                "xxxxxxxxxxxxxxxxxxxxxxxxxxxxxxxxxxxxxxxxxxxxxxxxxxxxxxxxxxxxxxxxxxxxxxxxxxxxxxxxxxxxxxxxxxxxxxxxxxxxxxxxxxxxxxxxxxxxxxxxxxxxxxxxxxxxxxxxxxxxxxxxxxxxxxxxxxxxxxxxxxxxxxxxxxxxxxxxxxxxxxxxxxxxxxxxxxxxxxxxxxxxxxxxxxxxxxxxxxxxxxxxxxxxxxxxxxxxxxxxxxxxxxxxxxxxxxxxxxxxxxxxxxxxxxxxxxxxxxxxxxxxxxxxxxxxxxxxxxxxxxxxx"]).to_string()
 }
 
+/// a very long unknown line with a command word starting exactly at a buffer-size boundary (a reader that chops long
+/// lines turns the tail into a command of its own)
+fn long_junk(rng: &mut Rng) -> String {
+    let at = *rng.pick(&[256usize, 512, 1024, 2048, 4096, 4096, 4096, 8192, 16384, 32768, 65536]) + *rng.pick(&[0usize, 0, 0, 1, 2]) ;
+    let word = *rng.pick(&["isready", "uci", "quit", "isready", "go depth 1", "ucinewgame"]);
+    let mut l = String::with_capacity(at + 16);
+    l.push('q');
+    while l.len() + 1 < at { l.push(if l.len() % 97 == 0 { ' ' } else { 'x' }); }
+    l.push(' ');
+    l.push_str(word);
+    l
+}
+
 pub fn run(rng: &mut Rng, n: usize, outdir: &std::path::Path, flavour: &str) {
     let g = Gen::new();
     let mut f = std::io::BufWriter::new(std::fs::File::create(outdir.join("scripts.txt")).unwrap());
@@ -31,7 +44,7 @@ pub fn run(rng: &mut Rng, n: usize, outdir: &std::path::Path, flavour: &str) {
             match rng.below(if flavour == "handshake" { 6 } else { 10 }) {
                 0 => lines.push("uci".into()),
                 1 => lines.push("isready".into()),
-                2 => lines.push(junk(rng)),
+                2 => lines.push(if rng.chance(1, 6) { long_junk(rng) } else { junk(rng) }),
                 3 => lines.push(rng.pick(&["  isready  ", "\tuci", "uci now please", "isready 1 2 3", "isready\t", " \t uci \t ", "uci uci", "isready isready quit"]).to_string()),
                 4 => { lines.push("ucinewgame".into()); cur = Board::default(); }
                 5 => lines.push(junk(rng)),
@@ -51,8 +64,10 @@ pub fn run(rng: &mut Rng, n: usize, outdir: &std::path::Path, flavour: &str) {
                     // one game in three shuffles pieces back and forth, so that the position searched (and its successors)
                     // already occurred in the history given with the command
                     let shuffle = rng.chance(1, 3);
+                    // now and then a game so long that its command line exceeds any small fixed buffer (> 4096 and > 8192 bytes)
+                    let very_long = shuffle && rng.chance(1, 8);
                     let keep_start = !use_startpos && g.mg.generate_moves(&start).len() <= 1;
-                    for _ in 0..(if keep_start { 0 } else if shuffle { 4 + rng.below(10) } else { rng.below(12) }) {
+                    for _ in 0..(if keep_start { 0 } else if very_long { 850 + rng.below(900) } else if shuffle { 4 + rng.below(10) } else { rng.below(12) }) {
                         let ms = g.mg.generate_moves(&b);
                         if ms.is_empty() { break; }
                         let m = if shuffle && played.len() >= 2 && rng.chance(4, 5) {
